@@ -228,7 +228,7 @@ func runTokenFamily(c *Ctx) {
 			n[op]++
 			key := FuncName(fr.Decl) + "/" + op + "#" + itoa(n[op])
 			if len(ctx) == 0 {
-				c.OK(key, call.Pos(), "emitted without a test of the operator token in scope (not an operator-selected site)")
+				c.OKTrivial(key, call.Pos(), "emitted without a test of the operator token in scope (not an operator-selected site)")
 				return true
 			}
 			var ctxs []string
